@@ -530,7 +530,7 @@ def oracle(ctx, cr):
     if "error" in cr.rec:
         err = cr.rec["error"]
         if not err.startswith("EXC"):
-            ctx.violation("%s:harness_error" % op, err[:300], det)
+            ctx.violation("%s:malformed_record" % op, err[:300], det)
         else:
             ctx.violation("%s:%s:fault" % (op, ac), "%s %s threw while the result was read: %s" % (op, det["case"], err[-160:]), det)
         return
